@@ -52,5 +52,6 @@ for mu in MUTANTS:
                 print("   ", [l for l in r.stdout.splitlines() if "INCONCLUSIVE" in l][:2])
     finally:
         shutil.rmtree(scratch, ignore_errors=True)
-missed = [r for r in rows if r[2] != 1]
+expect = {mu["name"]: mu.get("expect", 1) for mu in MUTANTS}
+missed = [r for r in rows if r[2] != expect[r[0]]]
 print(f"\n{len(rows) - len(missed)}/{len(rows)} (mutant,check) pairs detected; missed: {[(r[0], r[1], r[2]) for r in missed]}")
